@@ -7,9 +7,9 @@ ALL_CHECKS=1 runs all claimed checks per change, otherwise only the change's own
 import json, os, subprocess, sys, shutil
 from concurrent.futures import ThreadPoolExecutor
 
-VERIF = "/verif"
+VERIF = os.path.abspath(os.path.join(os.path.dirname(os.path.abspath(__file__)), "..", ".."))   # /verif, or a snapshot of it (vp run)
 SEED = os.path.join(VERIF, "seeded")
-ROOT = "/tmp/verif-seedrun"
+ROOT = "/tmp/verif-seedrun-%d" % os.getpid()
 BASE = os.path.join(ROOT, "base")   # pristine export of /repo's HEAD: immune to a patch being tried on /repo meanwhile
 manifest = json.load(open(os.path.join(VERIF, "MANIFEST.json")))
 claimed = [c["property_id"] for c in manifest["checks"]]
